@@ -4206,7 +4206,9 @@ def qr(a, mode='reduced', inner_labels=[None, None], cutoff=None, pos_diag_R=Fal
                 continue
         if pos_diag_R:
             r_diag = np.diag(r_block)
-            phase = r_diag / np.abs(r_diag)
+            r_abs = np.abs(r_diag)
+            is_zero = r_abs == 0.0  # (rank deficient block): nothing to make positive, keep the phase
+            phase = np.where(is_zero, 1.0, r_diag / np.where(is_zero, 1.0, r_abs))
             K = len(r_diag)
             if K < q_block.shape[1]:
                 q_block[:, :K] *= phase[np.newaxis, :]
